@@ -334,7 +334,9 @@ func (q qiDecoder) value(v reflect.Value) error {
 			// costly (run "go test -bench=ReadStruct" and compare
 			// results when making changes to this code).
 			if v := v.Field(i); v.CanSet() || t.Field(i).Name != "_" {
-				q.value(v)
+				if err := q.value(v); err != nil {
+					return err
+				}
 			}
 		}
 	case reflect.Slice:
